@@ -446,6 +446,7 @@ func (mexset *messageExchangeSet) forwardPeerFrame(frame *Frame) error {
 	mexset.RLock()
 	mex := mexset.exchanges[frame.Header.ID]
 	mexset.RUnlock()
+	verifPoint("mex.forward.afterLookup", frame.Header.ID)
 
 	if mex == nil {
 		// This is ok since the exchange might have expired or been cancelled
